@@ -109,7 +109,8 @@ PATTERNS = ["", "Test.*/ping", "TestQuery/ping", "TestAlpha", "^TestAlpha$", "Te
 
 class C08(CleanBase):
     pid = "C08"
-    fields = {"obs": ["outcome", "errors", "logs", "writes", "~line"], "fs": "*", "clean": ["layout", "ofiles", "otests", "writes", "printed", "passed", "failed", "added", "updated", "skipped", "removed"], "readsum": ["ok", "agree", "~render"]}
+    fields = {"obs": ["outcome", "errors", "logs", "writes", "~line"], "fs": "*", "clean": ["layout", "ofiles", "otests", "writes", "printed", "passed", "failed", "added", "updated", "skipped", "removed"], "readsum": ["ok", "agree", "~render"],
+              "skiprun": "*", "fileskip": "*"}
     rule = ("white-box: Clean after histories in which some tests called snaps.Skip/Skipf/SkipNow (parents, children, siblings "
             "sharing a name prefix), all modes; black-box: a generated package (tests, subtests, prefix-related names, a skipping test, "
             "a partly skipped test, standalone and custom-named files, TestMain with Clean) recorded once and then run under REAL "
@@ -169,9 +170,40 @@ class C08(CleanBase):
             ops += run2 + [G.op_setenv(ci, upd), {"op": "dumpfs"}, {"op": "clean", "sort": sort, "count": info["count"]}, {"op": "dumpfs"}]
             cases.append({"ci": False, "updvar": "unset", "colour": False, "ops": ops,
                           "meta": {"mode": "ci=%s upd=%s sort=%s" % (ci, upd, sort), "skipped": [hx(t) for t in skipped]}})
+        # ---- the library's own -run decisions, compared with Model/RunFilter.v (tie of the theorems C08_run_*): testSkipped on
+        # ids, isFileSkipped on a sibling test file, for patterns of the model's class (alternations of '/'-separated literals,
+        # anchored at the ends of an alternative)
+        frags = [b"Test", b"TestA", b"TestAB", b"A", b"AB", b"B", b"sub", b"sub#01", b"deep", b"1", b"10", b"2", b" - 1", b"- ", b"Zeta", b"x", b""]
+        funcs_pool = [b"TestA", b"TestAB", b"TestB", b"TestZeta", b"TestMain", b"Helper", b"BenchmarkX", b"Test1"]
+        def pattern(r):
+            alts = []
+            for _ in range(r.weighted([(1, 3), (2, 3), (3, 1)])):
+                lv = b"/".join(r.choice(frags) for _ in range(r.weighted([(1, 4), (2, 2), (3, 1)])))
+                alts.append((b"^" if r.chance(1, 3) else b"") + lv + (b"$" if r.chance(1, 3) else b""))
+            return b"|".join(alts)
+        for i in range(max(20, n // 4)):
+            r = rng.fork()
+            ops = []
+            for _ in range(r.range(2, 6)):
+                pat = pattern(r)
+                if r.chance(2, 3):
+                    names = r.shuffle(G.TEST_NAMES)[: r.range(1, 5)]
+                    ids = [t + b" - " + str(r.choice([1, 1, 2, 10, 21])).encode() for t in names]
+                    sk = [t for t in r.shuffle(G.TEST_NAMES)[:3] if r.chance(1, 3)]
+                    ops.append({"op": "skiprun", "doc": hx(pat), "values": [hx(x) for x in ids], "content": hx(b"\n".join(sk))})
+                else:
+                    fs_ = r.shuffle(funcs_pool)[: r.range(0, 4)]
+                    o = {"op": "fileskip", "doc": hx(pat if r.chance(5, 6) else b""), "path": hx(r.choice([b"x_test", b"api.v2_test", b"zz"])), "values": [hx(x) for x in fs_]}
+                    if r.chance(1, 5):
+                        o["novalues"] = True       # no sibling test file: a standalone / custom-named snapshot file
+                        o["values"] = []
+                    ops.append(o)
+            cases.append({"ci": False, "updvar": "unset", "colour": False, "ops": ops, "meta": {"mode": "runfilter", "skipped": []}})
         return cases
 
     def oracle(self, case, ops, results):
+        if case.get("meta", {}).get("mode") == "runfilter":
+            return []          # compared with the model only; the property itself is judged against the real runner (black box)
         fss = [r for r in results if r[0] == "fs"]
         cl = [r for r in results if r[0] == "clean"]
         if len(fss) < 2 or not cl:
@@ -211,7 +243,26 @@ class C08(CleanBase):
         return fails
 
     def nontrivial(self, case, ops, results):
+        if case.get("meta", {}).get("mode") == "runfilter":
+            # a pattern that protects some of the ids / functions and not others
+            bits = set()
+            for r_ in results:
+                if r_[0] == "skiprun":
+                    bits |= {x.rsplit(":", 1)[-1] for x in r_[2].get("res", "~").split(",") if ":" in x}
+                elif r_[0] == "fileskip":
+                    bits.add(r_[2].get("res"))
+            return {"0", "1"} <= bits
         return any(n == "skip" for n, kv in ops)
+
+    def stats(self, case, ops, results, dist):
+        super().stats(case, ops, results, dist) if hasattr(super(), "stats") else None
+        for r_ in results:
+            if r_[0] == "skiprun":
+                for x in r_[2].get("res", "~").split(","):
+                    if ":" in x:
+                        dist["runfilter:testSkipped=" + x.rsplit(":", 1)[-1]] += 1
+            elif r_[0] == "fileskip":
+                dist["runfilter:isFileSkipped=" + str(r_[2].get("res"))] += 1
 
     # ------------------------------------------------------------------ black box with the real runner
     def extra_run(self, tier, seed, workdir):
